@@ -209,7 +209,8 @@ func c20Parse(args []string) error {
 	corp["json"] = append(corp["json"], `{"a": [1, 2.5e3, true, null, {"b": "c\n"}], "d": {}}`, `[ /* c */ 1, "x" ]`)
 	corp["js"] = []string{"var a = 1; function f(x, y) { return x + y * 2; }\nclass A extends B { m() { if (a) b(); else c() } }\nlet {q, ...r} = o; for (const x of xs) { yield* x }\n",
 		"export default async function* g() { await f?.(1)[2] ?? `t${x}u`; }\nimport {a as b} from 'm';\nlabel: do x++; while (x < 10)\n/* c */ a = b ? c : d // e\n",
-		"const re = /ab+c/gi, t = <div a={b}>text {c}</div>;\ntry { throw new E() } catch ({m}) { } finally { }\nswitch (k) { case 1: default: break }\n"}
+		"const re = /ab+c/gi, t = <div a={b}>text {c}</div>;\ntry { throw new E() } catch ({m}) { } finally { }\nswitch (k) { case 1: default: break }\n",
+		"let a;\nvar x, y = 1, z;\nlet b, c\nfunction h(p, q = 2, ...rest) { return }\nfor (let i; i < n; i++) ;\nclass K { f; static g; m() {} }\nif (a) b\nelse c\n"}
 	corp["test"] = []string{"decl1(a.b.c) decl2 {-- decl1(x) decl2 } test { x y } eval(1+2) 7 9 []\n", "decl2 if (as f_a) decl2 else decl2 test (1.foo_ 2) z z z x\n", "{decl1(a)} // c\n/* m */ decl2: a.b.c test 5\n"}
 	nasty := []string{"}", "{", "(", ")", ";", "\"", "'", "/*", "%", "::", "->", "|", ",", "[", "]", " ", "\n", "\xff", "if", "=", "<", ">", ".", "...", "`", "${"}
 	parsers := []string{"tm", "js", "json", "test"}
@@ -251,6 +252,23 @@ func c20Parse(args []string) error {
 			case 2:
 				text = text[:r.Intn(len(text)+1)]
 				op = "truncate"
+			case 3:
+				// a complete comment in front of a delimiter: pending tokens meet nodes that end in empty symbols
+				var at []int
+				for p := 0; p < len(text); p++ {
+					if strings.IndexByte(";,)}]=\n", text[p]) >= 0 {
+						at = append(at, p)
+					}
+				}
+				if len(at) > 0 && parser != "json" {
+					p := at[r.Intn(len(at))]
+					cm := []string{" /* c */", " // c\n", " /* c */ /* d */"}[r.Intn(3)]
+					if parser == "tm" {
+						cm = []string{" /* c */", " # c\n"}[r.Intn(2)]
+					}
+					text = text[:p] + cm + text[p:]
+					op = "comment"
+				}
 			}
 		}
 		c := &c20Case{ID: id, Parser: parser, Origin: op}
